@@ -60,6 +60,18 @@ def _state_key():
     return head, diff
 
 
+def _driver_id():
+    """identity of the fact extractor (source of the driver and of the normaliser-independent
+    fact format): facts extracted by another version of it are not reused"""
+    h = hashlib.sha256()
+    for f in ("hcfacts/src/main.rs", "hcfacts/Cargo.toml"):
+        try:
+            h.update(open(os.path.join(ROOT, f), "rb").read())
+        except OSError:
+            pass
+    return h.hexdigest()[:16]
+
+
 def _worker_target(k):
     """a private cargo target directory for worker k, seeded from the warmed main one"""
     main_t = os.path.join(ROOT, ".cache", "target")
@@ -74,7 +86,7 @@ def variant_facts(m, extract, worker=0, state=None):
     head, diff = state or _state_key()
     patch = open(os.path.join(m["dir"], "patch.diff"), "rb").read()
     cfg = m.get("config", "all")
-    key = hashlib.sha256(b"\0".join([head.encode(), diff.encode(), patch, cfg.encode()])).hexdigest()[:24]
+    key = hashlib.sha256(b"\0".join([head.encode(), diff.encode(), patch, cfg.encode(), _driver_id().encode()])).hexdigest()[:24]
     os.makedirs(VCACHE, exist_ok=True)
     out = os.path.join(VCACHE, key + ".json")
     if os.path.exists(out) and os.path.getsize(out) > 0:
